@@ -574,7 +574,34 @@ func (l mapLV) Load(x *Exec, st *State) Value {
 	v, _ := x.mapGet(st, l.m, l.key)
 	return v
 }
-func (l mapLV) Store(x *Exec, st *State, v Value) { x.mapSet(st, l.m, l.key, v) }
+func (l mapLV) Store(x *Exec, st *State, v Value) {
+	// m[k] = s for a slice s that still belongs to something on the heap (a row of another map,
+	// a field of a stored object) makes two owners share one backing array: slices are values in
+	// this model, so the alias is refused where it would be created (an append through one owner
+	// writes memory the other reads - the shared header slices of a stored response, say)
+	if sv, ok := v.(SliceV); ok && x.curFrame != nil && x.cur != nil && !st.dead && x.inSpec == 0 {
+		shared := false
+		check := func(t *Term) {
+			if t == nil {
+				return
+			}
+			t.walk(func(u *Term) {
+				if u.Op == "var" && isHeapArrayVar(u.Name) {
+					shared = true
+				}
+			})
+		}
+		check(sv.Base)
+		for _, lt := range sv.Leaves {
+			check(lt)
+		}
+		if shared {
+			x.oblige(x.curFrame, st, "pre", "map-store/owned-slice@"+x.siteLabelOrFunc(), Eq(sv.Len, IntLit(0)), x.curNode)
+			x.Obls[len(x.Obls)-1].Tag = "C15,C01,C08"
+		}
+	}
+	x.mapSet(st, l.m, l.key, v)
+}
 
 type blankLV struct{}
 
@@ -2043,4 +2070,10 @@ func (x *Exec) globalInitValue(st *State, obj *types.Var) (Value, bool) {
 func allocAt(t, a *Term) *Term {
 	at := App("alloctime", SInt, a)
 	return And(Lt(IntLit(0), at), Le(at, t))
+}
+
+// isHeapArrayVar: the SMT variables that stand for heap arrays are named H<epoch>_<key> or,
+// inside a loop, Hl_<key>_<n>.
+func isHeapArrayVar(name string) bool {
+	return len(name) > 2 && name[0] == 'H' && ((name[1] >= '0' && name[1] <= '9') || name[1] == 'l') && strings.Contains(name, "_")
 }
